@@ -91,6 +91,13 @@ def model (f : List String) : String :=
       let entered := (s1.threads 1).wpos > 0 || (s1.threads 1).todo.isEmpty || inStream prog s1 1
       "parked=1 blocked=" ++ (if entered then "0" else "1") ++ " concurrent=" ++ (if entered then "1" else "0")
     | _, _ => "bad-op"
+  | ["chain", sink, _seq, _park, _build] =>
+    if (progsOf sink).length = 6 && (progsOf sink).all goodProg then "all-rounds-blocked" else "not-proved"
+  | ["turnseq", sink, _rounds, _park, _build] =>
+    -- a sequence of turnstiles among long-lived threads: every round is an instance of `Props.C09.mutex` (no second
+    -- thread is inside the stream while one is), which holds in every reachable state of every schedule - whatever
+    -- happened in the rounds before - when the extracted bodies have the proved shape; otherwise nothing is claimed
+    if (progsOf sink).length = 6 && (progsOf sink).all goodProg then "all-rounds-blocked" else "not-proved"
   | ["heavy", sink, n, r, _mb, _seed, _build] =>
     -- records of megabytes: no schedule is simulated here.  When every extracted sink body has the shape
     -- the theorems are about, `Props.C09.stdout_mt_safe` / `stderr_mt_safe` give the answer for every schedule;
@@ -115,6 +122,12 @@ def judge (f : List String) (ans : String) : String :=
   | ["turn", _sink, sevA, sevB, park, _rep, _build] =>
     let feat := "\tturnstile park-" ++ park ++ " sev" ++ sevA ++ "-" ++ sevB ++ " nt"
     if ans = "parked=1 blocked=1 concurrent=0" then "ok" ++ feat else "bad:" ++ ans ++ feat
+  | ["chain", _sink, seq, park, _build] =>
+    let feat := "\tturnstile-chain park-" ++ park ++ " length" ++ toString seq.length ++ " nt"
+    if ans = "all-rounds-blocked" then "ok" ++ feat else "bad:" ++ ans ++ feat
+  | ["turnseq", _sink, rounds, park, _build] =>
+    let feat := "\tturnstile-sequence park-" ++ park ++ " rounds" ++ toString ((rounds.length + 1) / 3) ++ " nt"
+    if ans = "all-rounds-blocked" then "ok" ++ feat else "bad:" ++ ans ++ feat
   | ["heavy", _sink, n, r, mb, _seed, build] =>
     match n.toNat?, r.toNat? with
     | some n, some r =>
